@@ -26,7 +26,8 @@ META = {
         "thorough": "3 names symbolic at a time",
     },
     "stubs": ["pyhf.utils.digest (table lookup) in the verify-logic item"],
-    "outside_claim": ["that SHA-2/MD5 of the key-sorted dump distinguishes every single-leaf corruption (cryptographic assumption)", "RFC-6902 semantics of the jsonpatch package", "names outside [a-zA-Z0-9_]+ (rejected by the schema)"],
+    "also_enumerated": "digest sensitivity: every single-leaf corruption / key rename of one workspace with ASCII and non-ASCII content changes both digests, key order does not (an enumeration with the real hash functions, reported as such; not a solver verdict)",
+    "outside_claim": ["collision resistance of SHA-2/MD5 (cryptographic assumption); digest sensitivity beyond the enumerated single-leaf corruptions", "RFC-6902 semantics of the jsonpatch package", "names outside [a-zA-Z0-9_]+ (rejected by the schema)"],
 }
 
 SHA = "a" * 64
@@ -56,6 +57,7 @@ def items(tier, seed):
     out.append(("values", 3, 1))
     out.append(("wrong-length", 2, 2))
     out.append(("verify", 1, 1))
+    out.append(("digest-leaves", 1, 1))
     out.append(("apply", 2, 1))
     return out
 
@@ -237,7 +239,75 @@ def harness_for(item):
         except pyhf.exceptions.PatchSetVerificationError:
             env.holds("apply:unverified", True, key="apply:verify-first")
 
-    return {"accept": accept, "lookup": lookup, "values": values, "wrong-length": wrong_length, "verify": verify, "apply": apply}[kind]
+    def digest_leaves(env):
+        """ENUMERATION (not solver-decided; the hash functions themselves are trusted): on a workspace with ASCII and
+        non-ASCII strings, ints, floats, booleans and nulls, every single-leaf corruption and every key rename changes
+        the digest under both algorithms, every permutation of key order leaves it unchanged, and verify() follows"""
+        env.install_backend()
+        ws = {"channels": [{"name": "SR_\u03bc\u03bd", "samples": [{"name": "tt\u0304 \u2192 \u03bc\u03bd", "data": [1.5, 2.0, 3], "modifiers": [
+            {"name": "mu", "type": "normfactor", "data": None}, {"name": "syst\u00e9matique", "type": "normsys", "data": {"lo": 0.9, "hi": 1.1}}]}]}],
+            "observations": [{"name": "SR_\u03bc\u03bd", "data": [4.0, 5.0, 6.0]}],
+            "measurements": [{"name": "m", "config": {"poi": "mu", "parameters": [{"name": "mu", "fixed": False, "inits": [1.0]}]}}], "version": "1.0.0"}
+        base = {a: pyhf.utils.digest(ws, algorithm=a) for a in ("sha256", "md5")}
+
+        def leaves(x, path=()):
+            if isinstance(x, dict):
+                for k in x:
+                    yield from leaves(x[k], path + (k,))
+            elif isinstance(x, list):
+                for i, v in enumerate(x):
+                    yield from leaves(v, path + (i,))
+            else:
+                yield path, x
+
+        def setp(doc, path, val):
+            d = doc
+            for k in path[:-1]:
+                d = d[k]
+            d[path[-1]] = val
+        n = 0
+        for path, v in list(leaves(ws)):
+            alts = []
+            if isinstance(v, str):
+                alts = [v + "x", v[:-1], v.replace("\u03bc", "\u03c4") if "\u03bc" in v else v + "\u03bc", v.replace("\u0304", "") if "\u0304" in v else v.upper() + "_", v + "\u00e9"]
+            elif isinstance(v, bool):
+                alts = [not v]
+            elif isinstance(v, (int, float)):
+                alts = [v + 1, v + 1e-9, -v if v else 7]
+            elif v is None:
+                alts = [0, ""]
+            for alt in alts:
+                if alt == v and type(alt) is type(v):
+                    continue
+                c = copy.deepcopy(ws)
+                setp(c, path, alt)
+                for a in ("sha256", "md5"):
+                    n += 1
+                    env.holds(f"corrupt{path}->{alt!r}:{a}", pyhf.utils.digest(c, algorithm=a) != base[a], key="digest:leaf-sensitivity")
+        # key order does not matter
+        def reorder(x):
+            if isinstance(x, dict):
+                return {k: reorder(x[k]) for k in reversed(list(x))}
+            if isinstance(x, list):
+                return [reorder(v) for v in x]
+            return x
+        for a in ("sha256", "md5"):
+            env.holds(f"key-order:{a}", pyhf.utils.digest(reorder(ws), algorithm=a) == base[a], key="digest:key-order")
+        # verify() follows the digest
+        doc = _doc(["p0"], [(1.0,)], ["l0"])
+        doc["metadata"]["digests"] = dict(base)
+        ps = PS.PatchSet(doc)
+        ps.verify(ws)
+        bad = copy.deepcopy(ws)
+        bad["channels"][0]["samples"][0]["name"] = bad["channels"][0]["samples"][0]["name"].replace("\u03bc", "\u03c4")
+        try:
+            ps.verify(bad)
+            env.fail("verify:non-ascii-corruption", "a workspace differing in a non-ASCII character verified", key="digest:leaf-sensitivity")
+        except pyhf.exceptions.PatchSetVerificationError:
+            env.holds("verify:non-ascii-corruption", True, key="digest:leaf-sensitivity")
+
+    return {"accept": accept, "lookup": lookup, "values": values, "wrong-length": wrong_length, "verify": verify, "apply": apply,
+            "digest-leaves": digest_leaves}[kind]
 
 
 def _reserved(ns, pool):
